@@ -167,6 +167,7 @@ def extract():
 
     # ---- each trait module: inner feature gates, cross references
     inner = []   # (mod id, gate)
+    macro = []   # (mod id, feature id) for cfg!(feature = …) expressions inside a trait module
     cross = []   # (mod id, other mod id)
     for (mid, gate) in modules:
         path = os.path.join(REPO, "src/traits", modnames[mid] + ".rs")
@@ -180,6 +181,10 @@ def extract():
         for expr, a, b in cfg_attrs(src):
             if "feature" in expr:
                 inner.append((mid, parse_gate(expr, feats)))
+        # `cfg!(feature = "x")` used as an expression: behaviour that depends on feature x at run time
+        for m in re.finditer(r'cfg!\s*\(([^)]*(?:\([^)]*\))?[^)]*)\)', src):
+            for fm in re.finditer(r'feature\s*=\s*"([^"]+)"', m.group(1)):
+                macro.append((mid, feat_id(fm.group(1), feats)))
         for m in re.finditer(r"(?:crate::traits|super)::(\w+)", src):
             o = m.group(1)
             if o in modnames and modnames.index(o) != mid:
@@ -201,7 +206,7 @@ def extract():
         core_cfg += len(re.findall(r'cfg!\s*\(\s*feature', src))
 
     return dict(features=feats, default=default, all=allalias, items=items, modnames=modnames, modules=modules,
-                trait_exports=trait_exports, root_exports=root_exports, inner=inner, cross=cross, core_cfg=core_cfg)
+                trait_exports=trait_exports, root_exports=root_exports, inner=inner, cross=cross, core_cfg=core_cfg, macro=macro)
 
 
 def lean_gate(g):
@@ -257,6 +262,8 @@ def render(m):
     L.append("def rootExports : List (Nat × Gate) := [" + ", ".join(f"({a}, {lean_gate(g)})" for a, g in m["root_exports"]) + "]")
     L.append("/-- feature gates inside a trait module's own file (e.g. on the impl block): (module, gate) -/")
     L.append("def innerGates : List (Nat × Gate) := [" + ", ".join(f"({a}, {lean_gate(g)})" for a, g in m["inner"]) + "]")
+    L.append("/-- `cfg!(feature = …)` expressions inside a trait module's file: (module, feature tested) -/")
+    L.append("def macroGates : List (Nat × Nat) := [" + ", ".join(f"({a}, {b})" for a, b in m["macro"]) + "]")
     L.append("/-- references from one trait module to another (module, other module) -/")
     L.append("def crossRefs : List (Nat × Nat) := [" + ", ".join(f"({a}, {b})" for a, b in m["cross"] if b >= 0) + "]")
     L.append("/-- references from a trait module to a trait item through the crate root (module, item) -/")
@@ -296,6 +303,9 @@ def violations(m):
                     for (ma, g) in m["inner"]:
                         if ma == a and not eval_gate(g, S):
                             out.append((sub, f"feature {m['features'][i]}: an inner gate of module {m['modnames'][a]} is off"))
+    for a, f in m["macro"]:
+        if modgate.get(a) != ("feat", f):
+            out.append(([m["features"][f]], f"module {m['modnames'][a]} tests cfg!(feature = {m['features'][f]}) at run time: its helpers depend on another feature"))
     if m["default"]:
         out.append(([], "default features are not empty"))
     if m["all"] != list(range(nf)) or nf != 6:
